@@ -9,7 +9,8 @@
 //   10..21 = i8 i16 I24 i32 I48 i64 u8 u16 U24 u32 U48 u64 (samples = values; 1 or 2 channels)
 // Input line `P`: probe, prints `6 <build_nostd()>`.
 //   op: n v.. (next)  q v.. (next_squared)  c (current)  r (reset)  w (observe the window)
-// Output: per op `2 out-bits..` (reset: `7`; w: `5 window..`) ; `3 square_sum-bits..` (clone().into_parts());
+//       k (the detector is replaced by its clone(); every later op acts on the clone)
+// Output: per op `2 out-bits..` (reset: `7`; w: `5 window..`; k: `10`) ; `3 square_sum-bits..` (clone().into_parts());
 //   at the end `5 window..` (iteration order, flattened) ; `4 window_frames`;
 //   panicking constructor: `8 code`.  NaN canonicalised to the quiet NaN.
 use dasp_frame::Frame;
@@ -96,6 +97,11 @@ macro_rules! driver {
                     'r' => {
                         rms.reset();
                         ob(7, &[])
+                    }
+                    'k' => {
+                        let c = rms.clone();
+                        rms = c;
+                        ob(10, &[])
                     }
                     'w' => {
                         let (w, _) = rms.clone().into_parts();
